@@ -525,6 +525,10 @@ def far_grid():
     k = 0
     for e, qs in ((1.0, (0.1, 0.12, 0.15, 0.2, 0.3, 1.0, 5.0, 30.0)),
                   (1.0 - 1e-9, (0.1, 0.15, 0.3)), (0.999, (0.1, 0.15, 0.3)), (0.98, (0.1, 0.15, 0.3)),
+                  # between the parabolic switch (|e - 1| < 1e-10) and the published precision of elements: a body
+                  # taken for a parabola here is off by an amount that grows with 1 - e and the time from perihelion
+                  (1.0 - 1e-8, (0.1, 0.3)), (1.0 - 1e-7, (0.1, 0.3)), (1.0 - 9e-7, (0.1, 0.15, 0.3)),
+                  (1.0 - 1e-5, (0.1, 0.3)), (1.0 - 1e-4, (0.1, 0.3)),
                   (0.98 - 1e-9, (0.1, 0.15, 0.3)), (0.9, (0.1, 0.15, 0.3)), (0.5, (0.1, 0.15, 0.3))):
         for q in qs:
             for yrs in (-49.9, -30.0, -10.0, -1.0, 1.0, 10.0, 30.0, 49.9):
@@ -699,7 +703,7 @@ def search(rng, tier, deep):
         add(check_set_sequence(I, el1, el2, jde), ["Minor.set", list(el1), list(el2), jde],
             "minorset %s %s %r" % (" ".join(repr(x) for x in el1), " ".join(repr(x) for x in el2), jde))
     stats = {"evaluations": n, "distinct_nontrivial": nontriv,
-             "rule": "7 planets x %d epochs in -2000..4000 (direction vs library vectors 0.02 deg, elongation vs Sun at epoch and at epoch-tau, range, Mercury/Venus maxima, Epoch unchanged); Pluto 1885-2099 (1e-4 deg, series re-evaluated); minor bodies q 0.1-30, e in [0,1] incl. 0.98/1.0 +-1e-9, any orientation, +-50 yr, plus a fixed grid + random sample of exactly parabolic bodies (e = 1.0, q 0.1-1.5, +-30 d), a fixed far-from-perihelion grid (e = 1.0 x q 0.1..30 and 6 other eccentricities x q 0.1..0.3, t - T = +-1..49.9 years) and set()-after-construct call sequences compared bit for bit with a fresh object (1e-4 deg vs independent two-body propagation, elongation, switch-point continuity, _near_parabolic (v,r))" % (npl + 1),
+             "rule": "7 planets x %d epochs in -2000..4000 (direction vs library vectors 0.02 deg, elongation vs Sun at epoch and at epoch-tau, range, Mercury/Venus maxima, Epoch unchanged); Pluto 1885-2099 (1e-4 deg, series re-evaluated); minor bodies q 0.1-30, e in [0,1] incl. 0.98/1.0 +-1e-9, any orientation, +-50 yr, plus a fixed grid + random sample of exactly parabolic bodies (e = 1.0, q 0.1-1.5, +-30 d), a fixed far-from-perihelion grid (e = 1.0 x q 0.1..30 and 11 other eccentricities incl. 1 - 1e-8 .. 1 - 1e-4 x q 0.1..0.3, t - T = +-1..49.9 years) and set()-after-construct call sequences compared bit for bit with a fresh object (1e-4 deg vs independent two-body propagation, elongation, switch-point continuity, _near_parabolic (v,r))" % (npl + 1),
              "samples": [{"input": ["Neptune", 2448976.5], "checked": "direction within 0.02 deg of Earth(t)->Neptune(t-tau); elongation vs Sun(t) [known finding] and Sun(t-tau)"}],
              "per_key_counts": per_key, "near_parabolic_no_convergence_refusals": stats_extra.get("no_convergence", 0),
              "near_parabolic_no_convergence_min_x": stats_extra.get("no_convergence_min_x"),
